@@ -92,17 +92,17 @@ theorem C16_complete (invalid : BranchId → List Nat) (W batchSize : Nat) (scop
 
 /-- A later recovery (wallet restarted when the chain has grown by `rest`, possibly with another window `W'`),
     starting from what ANY complete earlier run left in the database (`PInv`, e.g. `C16_recover_leaves_pinv`): the
-    conclusion holds for the whole chain, provided the new blocks satisfy the look-ahead hypothesis with `W'`
-    relative to everything before them. -/
+    conclusion holds for the whole chain, provided the NEW blocks satisfy the look-ahead hypothesis with `W'`
+    relative to everything before them (`LookAheadFrom … p.length`; nothing is asked of the old blocks again). -/
 theorem C16_complete_resumed (invalid : BranchId → List Nat) (W' batchSize : Nat) (scopes : List Nat) (p rest : Chain)
     (cuts : Nat → Bool) (st0 : State) (hp : PInv scopes p p st0) (hwf : ChainWF scopes invalid (p ++ rest))
-    (hla : LookAhead W' scopes (p ++ rest)) :
+    (hla : LookAheadFrom W' scopes p.length (p ++ rest)) :
     Complete scopes (p ++ rest)
       (recoverChain invalid batchSize (rest.length + 1) (resurrect invalid { st0 with window := W' }) rest cuts 0) := by
   obtain ⟨hp1, hm1⟩ := resurrect_inv (invalid := invalid) (W := W') (c := p ++ rest) (p := p) (q := rest) rfl
     (pinv_window W' (pinv_extend hwf hp)) rfl
   exact complete_of_pinv
-    (recoverChain_spec hwf hla batchSize cuts (rest.length + 1) rest p _ 0 rfl (Nat.lt_succ_self _) hp1 hm1).1
+    (recoverChain_spec hwf hla batchSize cuts (rest.length + 1) rest p _ 0 rfl (Nat.le_refl _) (Nat.lt_succ_self _) hp1 hm1).1
 
 /-- …and a finished `recover` leaves such a database. -/
 theorem C16_recover_leaves_pinv (invalid : BranchId → List Nat) (W batchSize : Nat) (scopes : List Nat) (c : Chain)
@@ -129,6 +129,15 @@ example : LookAhead 2 [0] exChain := checkLA_sound _ _ _ (by decide)
 example : ledgerBalance [0] (allTxs exChain) = 15 := by decide
 example : balance (recover exInvalid 2 1 [0] exChain (fun _ => true)) = 15 :=
   (C16_complete_checked exInvalid 2 1 [0] exChain (fun _ => true) (by decide) (by decide)).2.2.2.trans (by decide)
+
+/-- …and the restart form: block 1 recovered with window 2, the wallet restarted when block 2 exists. -/
+example : Complete [0] exChain
+    (recoverChain exInvalid 1 2 (resurrect exInvalid
+      { recover exInvalid 2 1 [0] (exChain.take 1) (fun _ => false) with window := 2 }) (exChain.drop 1) (fun _ => false) 0) :=
+  C16_complete_resumed exInvalid 2 1 [0] (exChain.take 1) (exChain.drop 1) (fun _ => false) _
+    (C16_recover_leaves_pinv exInvalid 2 1 [0] (exChain.take 1) (fun _ => false)
+      (checkWF_sound _ _ _ (by decide)) (checkLA_sound _ _ _ (by decide)))
+    (checkWF_sound _ _ _ (by decide)) (checkLAFrom_sound _ _ _ _ (by decide))
 
 /-- The look-ahead hypothesis is tight: a jump of `W` beyond the next index (here: window 2, first payment at
     index 2) is outside it, and is indeed missed. -/
